@@ -1,5 +1,6 @@
 import SeqVerif.Base.Proto
 import SeqVerif.Model.Async
+import SeqVerif.Model.ApiAsync
 import SeqVerif.Extracted.C19
 /-!
 Driver for C19.  QPR text: `<ids>/<total>/<hist>/<aggs>` (ids `mid:rid,...`; hist `nil` | `-` | `k=v,...`;
@@ -96,6 +97,13 @@ def step (line : String) : String :=
         let r := fetchFoldWith hi desc qs
         s!"ok {fmtIds r.ids}/{r.total}/{fmtHist r.hist}/nil"
     | _, _, _ => "bad-op"
+  | ["asyncparams", from_, to_, iv, order] =>
+    match from_.toInt?, to_.toInt?, iv.toInt?, order.toInt? with
+    | some from_, some to_, some iv, some order =>
+      match asyncParams ⟨from_, to_, iv, order⟩ with
+      | none => "panic"
+      | some p => s!"ok {p.from_} {p.to_} {p.limit} {p.hi} {fmtBool p.withTotal} {fmtBool p.desc} retention={retentionHours} expiry-start={retentionHours}"
+    | _, _, _, _ => "bad-op"
   | _ => "bad-op"
 
 def main : IO Unit := SV.Proto.main step
